@@ -407,6 +407,10 @@ def check_decompose_rules(ctx, cirq):
             ('C04_decompose_fsim', cirq.FSimGate(th, ph).on(a, b),
              [cirq.XXPowGate(exponent=th / np.pi, global_shift=-0.5).on(a, b), cirq.YYPowGate(exponent=th / np.pi, global_shift=-0.5).on(a, b), cirq.CZ(a, b) ** (-ph / np.pi)]),
             ('C04_decompose_phasediswap', cirq.PhasedISwapPowGate(phase_exponent=p, exponent=t).on(a, b), [Z(a) ** p, Z(b) ** -p, cirq.ISwapPowGate(exponent=t).on(a, b), Z(a) ** -p, Z(b) ** p]),
+            ('C04_decompose_cypow', cirq.CYPowGate(exponent=t, global_shift=s).on(a, b), [X(b) ** 0.5, cirq.CZPowGate(exponent=t, global_shift=s).on(a, b), X(b) ** -0.5]),
+            ('C04_controlled_shift_x', cirq.ControlledGate(cirq.XPowGate(exponent=t, global_shift=s)).on(a, b), [CNOT(a, b) ** t] + ([Z(a) ** (t * s)] if s != 0 else [])),
+            ('C04_controlled_shift_z', cirq.ControlledGate(cirq.ZPowGate(exponent=t, global_shift=s)).on(a, b), [cirq.CZ(a, b) ** t] + ([Z(a) ** (t * s)] if s != 0 else [])),
+            ('C04_controlled_shift_cz', cirq.ControlledGate(cirq.CZPowGate(exponent=t, global_shift=s)).on(a, b, c), [cirq.CCZ(a, b, c) ** t] + ([Z(a) ** (t * s)] if s != 0 else [])),
             ('C04_decompose_ccxpow', cirq.CCXPowGate(exponent=t, global_shift=s).on(a, b, c), [H(c), cirq.CCZPowGate(exponent=t, global_shift=s).on(a, b, c), H(c)]),
             ('C04_decompose_cczpow', cirq.CCZPowGate(exponent=t, global_shift=s).on(a, b, c),
              ([gp] if s != 0 else []) + [T(a), T(b), T(c), *sweep, T(b) ** -1, T(c), *sweep, T(c) ** -1, *sweep, T(c) ** -1, *sweep]),
